@@ -39,7 +39,7 @@ impl Prop for C09 {
     fn describe(&self) -> Describe {
         Describe {
             level: "exploration",
-            rule: "each case = one seeded run of two complete litep2p nodes (probe user protocols with keep-alive, optionally ping and identify which must not prolong the connection) on SimNet with a materialised activity script on the virtual clock: substream opens by either side at chosen instants (before / exactly at / after the expiry), hold times from 0 to several T, one or two overlapping connections; non-trivial = scheduler had >=1 choice point; distinct = distinct trace hash".into(),
+            rule: "each case = one seeded run of two complete litep2p nodes (probe user protocols with keep-alive, optionally ping and identify which must not prolong the connection) on SimNet with a materialised activity script on the virtual clock: substream opens by either side at chosen instants (before / exactly at / after the expiry), hold times from 0 to several T, one or two overlapping connections, received substreams optionally half-closed (write side shut down, object kept for reading) for the hold time; non-trivial = scheduler had >=1 choice point; distinct = distinct trace hash".into(),
             real: vec!["Litep2p", "TransportManager", "TcpTransport/TcpConnection (permit handling)", "ProtocolSet", "TransportService + KeepAliveTracker", "ConnectionHandle/Permit", "ping", "identify", "Noise", "yamux"],
             stub: vec!["socket layer (SimNet, no faults in this scenario)", "clock (std Instant and tokio timers on one virtual clock)", "task scheduler (seeded)"],
             assumptions: vec![
@@ -95,6 +95,7 @@ impl Prop for C09 {
             "ping": rng.chance(1, 2),
             "identify": rng.chance(1, 2),
             "double": double,
+            "half_close": *rng.pick(&[0u64, 0, 1, 2]),
             "dialer": 1 + rng.below(2),
             "inbound_hold_ms": [*rng.pick(&[0u64, 30, 700, 4000, 30_000]), *rng.pick(&[0u64, 30, 700, 4000])],
             "ops": ops,
@@ -127,7 +128,7 @@ impl Prop for C09 {
                 let mut txs = Vec::new();
                 for (idx, name) in ["/vsim/probe/a", "/vsim/probe/b"].iter().enumerate() {
                     let (tx, rx) = unbounded_channel();
-                    b = b.with_user_protocol(Box::new(Probe { node: i, idx, name: ProtocolName::from(*name), seed, nodes_total: 2, log: log.clone(), handle: handle.clone(), rx, inbound_hold_ms: in_hold[(i - 1).min(in_hold.len() - 1)] }));
+                    b = b.with_user_protocol(Box::new(Probe { node: i, idx, name: ProtocolName::from(*name), seed, nodes_total: 2, log: log.clone(), handle: handle.clone(), rx, inbound_hold_ms: in_hold[(i - 1).min(in_hold.len() - 1)], half_close: case["half_close"].as_u64().unwrap_or(0) }));
                     txs.push(tx);
                 }
                 if case["ping"].as_bool().unwrap_or(false) {
